@@ -233,3 +233,38 @@ Theorem sorted_entries_idem (l : list (N * entry)) :
 Proof.
   intros HP Hk. symmetry. apply sorted_entries_canonical; [assumption|apply Permutation_sym, py_sorted_perm|assumption].
 Qed.
+
+(* ---- object identities do not matter: sorting (id, entry) pairs by the entry and forgetting the ids is sorting the entries ---- *)
+Lemma map_insert_sorted (x : N * entry) l :
+  map snd (insert_sorted cmp_ie x l) = insert_sorted entry_ltb (snd x) (map snd l).
+Proof.
+  induction l as [|y l IH]; [reflexivity|]. cbn [insert_sorted map]. unfold cmp_ie at 1.
+  destruct (entry_ltb (snd y) (snd x)); cbn [map]; [rewrite IH|]; reflexivity.
+Qed.
+Lemma map_py_sorted l : map snd (py_sorted cmp_ie l) = py_sorted entry_ltb (map snd l).
+Proof.
+  unfold py_sorted. induction l as [|x l IH]; [reflexivity|]. cbn [fold_right map].
+  rewrite map_insert_sorted, IH. reflexivity.
+Qed.
+
+Lemma entry_order_swo :
+  (forall a b, wfe a -> wfe b -> entry_ltb a b = true -> entry_ltb b a = false) /\
+  (forall a b c, wfe a -> wfe b -> wfe c -> le entry entry_ltb a b -> le entry entry_ltb b c -> le entry entry_ltb a c).
+Proof.
+  split.
+  - intros a b Wa Wb. rewrite !entry_ltb_key by assumption. apply key_asym.
+  - intros a b c Wa Wb Wc. unfold le. rewrite !entry_ltb_key by assumption. apply key_le_trans.
+Qed.
+
+(* the entries written by a sorted save: a function of the multiset of entries alone *)
+Theorem sorted_entry_list_canonical (l1 l2 : list (N * entry)) :
+  Forall wfe (map snd l1) -> Permutation (map snd l1) (map snd l2) ->
+  (forall a b, In a (map snd l1) -> In b (map snd l1) -> ekey a = ekey b -> a = b) ->
+  map snd (py_sorted cmp_ie l1) = map snd (py_sorted cmp_ie l2).
+Proof.
+  intros HP Hp Hk. rewrite !map_py_sorted.
+  destruct entry_order_swo as [Has Htr].
+  apply (py_sorted_canonical _ entry_ltb wfe Has Htr); [assumption|assumption|].
+  intros a b Ha Hb. unfold le. rewrite Forall_forall in HP. rewrite !entry_ltb_key by (apply HP; assumption).
+  intros H1 H2. apply Hk; [assumption|assumption|]. apply key_tricho; assumption.
+Qed.
